@@ -52,7 +52,7 @@ TLS = [('cryptoparser.tls.subprotocol', n) for n in ('TlsContentType', 'TlsAlert
       [('cryptoparser.tls.extension', 'TlsServerNameType'), ('cryptoparser.tls.extension', 'TlsCertificateStatusType'),
        ('cryptoparser.common.x509', 'CtVersion')]
 SSH = [('cryptoparser.ssh.subprotocol', 'SshMessageCode'), ('cryptoparser.ssh.subprotocol', 'SshReasonCode'),
-       ('cryptoparser.ssh.key', 'SshCertType')]
+       ('cryptoparser.ssh.key', 'SshCertType'), ('cryptoparser.ssh.key', 'SshCertExtensionName')]
 DNS = [('cryptoparser.dnsrec.record', 'DnsSecFlag'), ('cryptoparser.dnsrec.record', 'DnsSecProtocol')]
 OPP = [('cryptoparser.tls.openvpn', 'OpenVpnOpCode'), ('cryptoparser.tls.mysql', 'MySQLVersion'), ('cryptoparser.tls.mysql', 'MySQLCapability'),
        ('cryptoparser.tls.mysql', 'MySQLStatusFlag'), ('cryptoparser.tls.rdp', 'COTPType'), ('cryptoparser.tls.rdp', 'RDPPacketType'),
